@@ -1,7 +1,7 @@
 (* Extraction of the C17 model (PrimFloat instance of Signal/Greedy.v) to OCaml.
    ExtrOCamlFloats maps PrimFloat operations to the kernel's Float64 module (native IEEE binary64). *)
-From Coq Require Import Extraction ExtrOcamlBasic ExtrOCamlFloats.
-From AG Require Import Base.Prelude Base.Res Signal.Greedy.
+From Coq Require Import Extraction ExtrOcamlBasic ExtrOCamlFloats ExtrOCamlInt63.
+From AG Require Import Base.Prelude Base.Res Signal.Greedy Signal.GreedyScale Signal.GreedyScaleFast.
 
 Extraction Language OCaml.
 Extraction Blacklist String List Int Z Str Unix Array Bytes Char.
@@ -11,4 +11,7 @@ Extraction "model.ml"
   Signal.Greedy.range_incl
   Signal.Greedy.nn_greedy_f Signal.Greedy.nn_naive_f
   Signal.Greedy.ls_deconv_f Signal.Greedy.ls_naive_f
-  Signal.Greedy.pad_deconv_f Signal.Greedy.wire_deconv_f.
+  Signal.Greedy.pad_deconv_f Signal.Greedy.wire_deconv_f
+  (* the executable hypothesis of C17_nn_greedy_scale_f64 / C17_ls_deconv_scale_f64 (= nn_safe / ls_safe:
+     C17_nn_safe_fast_eq, C17_ls_safe_fast_eq), evaluated by the runner on every rel17scale case *)
+  Signal.GreedyScaleFast.nn_safe_fast Signal.GreedyScaleFast.ls_safe_fast.
